@@ -163,6 +163,9 @@ int main(int argc, char **argv) {
     for (int m = 0; m < 7; ++m) {
       if (modes.find(LETTER[m]) == std::string::npos) continue;
       rc::step(m);
+      // progress marker on stdout: lets the check attribute a death without crash line
+      // (UBSan's halt_on_error does not run the death callback) to case and translator
+      printf("@@ %ld %d\n", (long) rc::cur_beh, m); fflush(stdout);
       rc::watchdog(wd);
       Res r;
       switch (m) {
